@@ -530,6 +530,9 @@ class Grammar:
     # -- emitters
     def proto_lines(self) -> List[str]:
         lines = [f"G {self.gid}"]
+        sel = getattr(self, 'sel', None)
+        if sel is not None:
+            lines.append("SEL " + " ".join(f"{nid} {k}" for nid, k in sorted(sel.items())))
         for nid in sorted(self.nodes):
             nd = self.nodes[nid]
             act = self.acts.get(nid, ActSpec())
@@ -668,6 +671,15 @@ class Grammar:
                     limit_ids[f"tao::pegtl::limit_bytes< {w[3:]} >"] = (1000001 + 2 * int(w[3:]), "maximum allowed rule consumption reached")
                 o.append(f"template<> struct act{f}< {nd.cpp} > : {', '.join(bases)} {{}};")
         self._limit_ids = limit_ids
+        sel = getattr(self, 'sel', None)
+        if sel is not None:
+            pt = "tao::pegtl::parse_tree"
+            groups = {'store': [], 'remove': [], 'fold': [], 'discard': []}
+            for nid, k in sorted(sel.items()):
+                groups[k].append(self.nodes[nid].cpp)
+            o.append(f"template< typename R > using sel = {pt}::selector< R, {pt}::store_content::on< {', '.join(groups['store'])} >, "
+                     f"{pt}::remove_content::on< {', '.join(groups['remove'])} >, {pt}::fold_one::on< {', '.join(groups['fold'])} >, "
+                     f"{pt}::discard_empty::on< {', '.join(groups['discard'])} > >;")
         o.append("inline void reg() {")
         for nid in sorted(self.nodes):
             o.append(f"  vh::reg< tag, {self.nodes[nid].cpp} >( {nid} );")
@@ -704,7 +716,8 @@ def grammar_to_json(g: Grammar):
     return {'gid': g.gid, 'named': {str(k): type_to_json(v) for k, v in g.named.items()},
             'acts': {str(k): vars(v) for k, v in g.acts.items()},
             'fams': {str(f): {str(k): vars(v) for k, v in m.items()} for f, m in g.fams.items()},
-            'messages': {str(k): v for k, v in g.messages.items()}}
+            'messages': {str(k): v for k, v in g.messages.items()},
+            'sel': ({str(k): v for k, v in g.sel.items()} if getattr(g, 'sel', None) is not None else None)}
 
 
 def grammar_from_json(d) -> Grammar:
@@ -718,4 +731,6 @@ def grammar_from_json(d) -> Grammar:
     for f, m in d.get('fams', {}).items():
         g.fams[int(f)] = {int(k): ActSpec(**v) for k, v in m.items()}
     g.messages = {int(k): v for k, v in d.get('messages', {}).items()}
+    if d.get('sel') is not None:
+        g.sel = {int(k): v for k, v in d['sel'].items()}
     return g
